@@ -13,6 +13,11 @@ from .model import (
 )
 
 
+def _ns(s0, s, when):
+    from .callbacks import none_swallowed
+    return none_swallowed(s0, s, when)
+
+
 def is_exception(x: Exc):
     """z3 Bool / python bool: the escaping exception is an instance of `Exception`."""
     r = x.is_sub("Exception")
@@ -83,6 +88,7 @@ class ProcessingLoop(Contract):
             "outer:sent-log-append-only": z3.Implies(outer, z3.And(
                 qt(s) >= t0, prefix_kept(qarr(s0), qarr(s), t0))),
             "outer:sentinel-never-escapes": z3.Implies(outer, res != W.SENT),
+            "C04|outer:a-failing-callback-is-not-swallowed": _ns(s0, s, outer),
             "C11|outer:empty-queue-is-a-no-op": z3.Implies(z3.And(outer, h0 == t0), z3.And(
                 s.g("ntrig") == n0, s.g("ng") == s0.g("ng"), s.g("ncb") == s0.g("ncb"), mstate(s) == mstate(s0),
                 qt(s) == t0, res == NONE)),
@@ -146,6 +152,7 @@ class ProcessingLoop(Contract):
             "C11|nothing-popped-yet-means-nothing-happened": z3.Implies(s.g("ntrig") == n0, z3.And(
                 qh(s) == h0, qt(s) == t0, s.g("ng") == s0.g("ng"), s.g("ncb") == s0.g("ncb"), mstate(s) == mstate(s0))),
             "C11|something-popped-means-the-queue-was-not-empty": z3.Implies(s.g("ntrig") > n0, h0 < t0),
+            "C04|none-swallowed-so-far": _ns(s0, s, rtc(s0)),
             "log-cursors": z3.And(s.g("ntrig") >= 0, s.g("ng") >= 0, s.g("ncb") >= 0),
             "state-map-untouched": z3.And(others_kept("idict.has", s0, s, W.CACHE), others_kept("idict.val", s0, s, W.CACHE)),
             "registry-wf": wf_registry(s),
@@ -282,6 +289,7 @@ class Trigger(Contract):
                 k >= 0, k < n, self._selection(s0, s, a, k, winner=k, winner_status=2),
                 mstate(s) == s0.sel("State.value", s0.sel("Transition.target", tk)))),
             z3.And(self._selection(s0, s, a, n), mstate(s) == mstate(s0), allow, res == NONE)))
+        f["C04|a-failing-callback-is-not-swallowed"] = none_swallowed(s0, s)
         f["C11|initial:returns-sentinel"] = z3.Implies(initial, res == W.SENT)
         f["C03,C11|sentinel-only-for-initial"] = z3.Implies(z3.Not(initial), res != W.SENT)
         return f
@@ -326,6 +334,7 @@ class Trigger(Contract):
                 self._selection(s0, s, a, l.i), mstate(s) == mstate(s0))),
             "C03|log": z3.And(*self._log_post(s0, s, a).values()),
             "C03|result-log-untouched": z3.Implies(rl, s.g("trig_res") == s0.g("trig_res")),
+            "C04|none-swallowed-so-far": none_swallowed(s0, s),
         }
         return f
 
@@ -383,6 +392,7 @@ from .model import (  # noqa: E402
     SMQ, smap_has, smap_val, valid_obj, wf_class, wf_transition, grouper_key, state_transitions,
 )
 from .model import reg_has, group_empty  # noqa: E402
+from .callbacks import none_swallowed  # noqa: E402
 
 
 def activation_groups(s0, t):
@@ -471,6 +481,7 @@ class Activate(Contract):
         f.update(queue_effect(s0, s))
         f.update(no_nested_trigger(s0, s))
         f["C03|result-is-never-the-private-sentinel"] = res != W.SENT
+        f["C04|a-failing-callback-is-not-swallowed"] = none_swallowed(s0, s)
         # ---- rejected candidate: validators and guards only, state unchanged, no result
         Vk = grouper_key(s0, s0.sel("Transition.validators", t))
         Ck = grouper_key(s0, s0.sel("Transition.cond", t))
